@@ -1893,17 +1893,17 @@ int XMLDateTime::fillYearString(XMLCh*& ptr, int value) const
         negativeYear = 1;
     }
     XMLSize_t i;
+    XMLSize_t digits = actualLen - negativeYear;
     //append leading zeros
-    if(actualLen+negativeYear < 4)
-        for (i = 0; i < 4 - actualLen+negativeYear; i++)
+    if(digits < 4)
+        for (i = 0; i < 4 - digits; i++)
             *ptr++ = chDigit_0;
 
     for (i = negativeYear; i < actualLen; i++)
         *ptr++ = strBuffer[i];
 
-    if(actualLen > 4)
-        return (int)actualLen-4;
-    return 0;
+    // what was written beyond "CCYY": extra digits and the sign
+    return (int)((digits > 4 ? digits - 4 : 0) + negativeYear);
 }
 
 /***
